@@ -81,23 +81,24 @@ type genConfig struct {
 }
 
 type gen struct {
-	t        *sim.Tape
-	cfg      genConfig
-	scopes   [][]gvar
-	nvar     int
-	nop      int
-	nchoose  int
-	ncall    int
-	depth    int
-	fnDepth  int
-	loop     int
-	mods     []srcModule
-	gmods    []*gmod
-	twins    int
-	Top      []string   // top-level statements
-	TopVars  [][]string // names readable after the i-th top-level statement (non-function, non-module)
-	features map[string]bool
-	inModule bool
+	t           *sim.Tape
+	cfg         genConfig
+	scopes      [][]gvar
+	nvar        int
+	nop         int
+	nchoose     int
+	ncall       int
+	depth       int
+	fnDepth     int
+	loop        int
+	mods        []srcModule
+	gmods       []*gmod
+	twins       int
+	depthParams map[string]bool
+	Top         []string   // top-level statements
+	TopVars     [][]string // names readable after the i-th top-level statement (non-function, non-module)
+	features    map[string]bool
+	inModule    bool
 	// noGrow: while set, string and array expressions reference no variable and
 	// call no function, so that an assignment cannot double its target
 	// (exponential growth inside loops).
@@ -467,6 +468,12 @@ func (g *gen) funcLit(lvl int, recursiveName string) (string, gvar) {
 		ps = append(ps, p)
 		// the first parameter of a recursive function is its strictly decreasing depth: never assigned
 		g.declare(gvar{name: p, t: tInt, konst: recursiveName != "" && i == 0})
+		if recursiveName != "" && i == 0 {
+			if g.depthParams == nil {
+				g.depthParams = map[string]bool{}
+			}
+			g.depthParams[p] = true
+		}
 	}
 	if sig.variadic {
 		p := g.fresh("va")
@@ -556,7 +563,9 @@ func (g *gen) stmt(lvl int) string {
 			// a new variable of an inner scope that takes the name of a variable or constant of an outer scope
 			if outer := g.vars(tAny); len(outer) > 0 {
 				name = outer[g.t.Draw(len(outer))].name
-				if strings.Contains(name, ".") || name == "GV" || name == "PA" || name == "PB" {
+				// (never the depth parameter of a recursive function: the new variable would live in the parameter's own
+				// scope when the statement stands directly in the function body, and the recursion would lose its bound)
+				if strings.Contains(name, ".") || name == "GV" || name == "PA" || name == "PB" || g.depthParams[name] {
 					name = g.fresh("v")
 				}
 			}
